@@ -726,6 +726,9 @@ pub struct Plan {
     pub style: TsStyle,
     /// form parameters rendered into the body (when Some, the body is a form and content-type is set)
     pub form: Option<Vec<(B, B)>>,
+    /// content-type value to use instead of the plain form media type (when `form` is Some), or to add
+    #[serde(default)]
+    pub ct_override: Option<String>,
 }
 
 #[derive(Clone, Debug)]
@@ -783,7 +786,12 @@ impl Plan {
         if let Some(f) = &self.form {
             l.body = B(spell_form(f, &self.spelling.bytes));
             if !l.headers.iter().any(|(n, _)| n == "content-type") {
-                l.headers.push(("content-type".into(), vec![B::from("application/x-www-form-urlencoded")]));
+                let ct = self.ct_override.clone().unwrap_or_else(|| "application/x-www-form-urlencoded".to_string());
+                l.headers.push(("content-type".into(), vec![B::from(ct)]));
+            }
+        } else if let Some(ct) = &self.ct_override {
+            if !l.headers.iter().any(|(n, _)| n == "content-type") {
+                l.headers.push(("content-type".into(), vec![B::from(ct.as_str())]));
             }
         }
         spell(&l, &self.spelling, self.cfg.s3)
@@ -901,7 +909,7 @@ pub fn plan(o: PlanOpts) -> BoxedStrategy<Plan> {
             signed.retain(|n| present.contains(n));
             spec.signed_headers = signed;
             let entry = KeyEntry { access_key: ak, token, secret, derive_as: None, principal, session };
-            Plan { logical, spelling, cfg, spec, entry, instant, style, form }
+            Plan { logical, spelling, cfg, spec, entry, instant, style, form, ct_override: None }
         })
         .boxed()
 }
@@ -929,7 +937,7 @@ pub fn simple_plan(carrier: Carrier) -> Plan {
         principal: PrincipalSpec::Empty,
         session: vec![],
     };
-    Plan { logical, spelling: Spelling { version: 11, ..Spelling::default() }, cfg, spec, entry, instant, style, form: None }
+    Plan { logical, spelling: Spelling { version: 11, ..Spelling::default() }, cfg, spec, entry, instant, style, form: None, ct_override: None }
 }
 
 impl Plan {
